@@ -2,6 +2,7 @@ package dnsserver
 
 import (
 	"math/rand"
+	"slices"
 
 	"github.com/miekg/dns"
 )
@@ -32,6 +33,14 @@ func normalizeTCP(proto Protocol, req, resp *dns.Msg) {
 //
 // TODO(ameshkov): Consider adding EDNS0COOKIE support.
 func normalize(network Network, proto Protocol, req, resp *dns.Msg, maxMsgSize uint16) {
+	// The padding and edns-tcp-keepalive options are hop-by-hop.  If the
+	// handler has left them in its OPT record, e.g. by relaying the one of an
+	// upstream, do not pass them on to a client that may not get them: padAnswer
+	// and addTCPKeepAlive add their own when appropriate.
+	if opt := resp.IsEdns0(); opt != nil {
+		opt.Option = slices.DeleteFunc(opt.Option, isHopByHopOption)
+	}
+
 	reqOpt := req.IsEdns0()
 	if reqOpt == nil {
 		truncate(resp, maxDNSSize(network, 0, maxMsgSize))
@@ -128,6 +137,18 @@ func filterUnsupportedOptions(o []dns.EDNS0) (supported []dns.EDNS0) {
 	}
 
 	return supported
+}
+
+// isHopByHopOption returns true if o is an EDNS0 option that only makes sense
+// between this server and its client and so must not be relayed from a
+// handler's response.
+func isHopByHopOption(o dns.EDNS0) (ok bool) {
+	switch o.Option() {
+	case dns.EDNS0PADDING, dns.EDNS0TCPKEEPALIVE:
+		return true
+	default:
+		return false
+	}
 }
 
 // padAnswer adds padding to a DNS response before it's sent back over an
